@@ -463,7 +463,9 @@ def run(tier, seed):
                 "the original, each result round-tripping again; trees include every flow-slot and sparse-content "
                 "combination (D3flow) and every quantity kind (def, string, named, cached); every ordered pair of documents of "
                 "the representative trees loaded one after the other in one process (and each twice): the reload equals its "
-                "own document, the caller's dict is untouched",
+                "own document, the caller's dict is untouched; containers assembled by Stack.build / Fraction.build from every "
+                "pair of <=4 events: the reload re-serialises identically, equals a second reload, and reload+original, "
+                "original+reload, reload+reload, original+=reload equal original+original",
         "exhaustive": True,
         "bounds": {"trees": len(ts), "H": "2 (quick, depth 3) / 3", "P": 2},
     }
